@@ -200,6 +200,7 @@ func runC03(c *kit.Ctx) {
 	// ---- R2 ---------------------------------------------------------------
 	c.StartRule("R2", "whoever removes a call from the sent table completes it on every path", 3)
 	clearedCallSlotsAreSkipped(c)
+	multiHasNoContextOfItsOwn(c)
 	handback := map[*ssa.Function]bool{trySend: true}
 	for _, s := range callersOf(p, unregName) {
 		fn := s.Parent()
@@ -488,6 +489,7 @@ func runC03(c *kit.Ctx) {
 	c.StartRule("R6", "reader errors are connection failures", 6)
 	everyWriteErrorIsReported(c)
 	readerEndsOnlyWhenTheConnectionFailed(c)
+	exceptionTableOracle(c)
 	readerErrorsAreFatal(c, recv)
 	decodeErrorsKeepTheConnection(c)
 	// direct completions in receive (outside the deferred one) happen on connection failures:
@@ -567,6 +569,11 @@ func runC03(c *kit.Ctx) {
 		for _, w := range connWrites(p, send) {
 			c.Check(kit.Dominates(reg, w.(ssa.Instruction)), send, "register-before-write", w.Pos(), "registerRPC dominates the write", "the request can be written before the call is in the sent table: its response would be unexpected")
 		}
+	}
+
+	// ---- R8 ---------------------------------------------------------------
+	if !c.Frozen {
+		embed(c, "R8", "a silent server is a failing connection too: the read deadline is armed while anything is outstanding, so that the outstanding requests are failed by the read timeout (the rules of C18, run as one rule here)", 40, runC18)
 	}
 }
 
